@@ -242,7 +242,51 @@ def tagged_value_build(_=None):
   return 5, 5, viols, []
 
 
+def annotation_tags_case(_=None):
+  """Tags attached by annotation (functions, __init__ of plain classes, dataclass fields incl.
+  inherited ones): expected from the source text of the pool callables, not from the library."""
+  viols = []
+  def bad(what, name):
+    viols.append(dict(config=name, what=what, sig='annotation-tags', store=name, op='', annotation=True))
+  expected = [
+      ('function', pool.annotated, {'w': {pool.TagA}, 'z': set()}),
+      ('class with annotated __init__', pool.AnnotatedInit, {'w': {pool.TagA}, 'z': {pool.TagB}}),
+      ('dataclass', pool.AnnotatedDC, {'w': {pool.TagA1}}),
+      ('dataclass subclass inheriting the field', pool.AnnotatedDCChild, {'w': {pool.TagA1}}),
+  ]
+  n = 0
+  for name, fn, want in expected:
+    for cls in (fdl.Config, fdl.Partial):
+      n += 1
+      cfg = cls(fn)
+      for arg, tags in want.items():
+        got = set(fdl.get_tags(cfg, arg))
+        if got != tags:
+          bad(f'{cls.__name__}({fn.__name__}): tags of {arg!r} are {sorted(map(str, got))}, the annotation '
+              f'says {sorted(map(str, tags))}', name)
+      if set(tagging.list_tags(cfg)) != set().union(*want.values()):
+        bad(f'{cls.__name__}({fn.__name__}): list_tags returned {sorted(map(str, tagging.list_tags(cfg)))}', name)
+      for arg, tags in want.items():
+        for t in tags:
+          c2 = cls(fn)
+          marker = ['V']
+          fdl.set_tagged(c2, tag=t, value=marker)
+          if c2.__arguments__.get(arg) is not marker:
+            bad(f'{cls.__name__}({fn.__name__}): set_tagged({t.__name__}) did not set the annotated argument {arg!r}', name)
+      # survive copying
+      for opname, op in (('copy', copy.copy), ('deepcopy', copy.deepcopy)):
+        cp = op(cfg)
+        for arg, tags in want.items():
+          if set(fdl.get_tags(cp, arg)) != tags:
+            bad(f'{cls.__name__}({fn.__name__}): annotation tags of {arg!r} did not survive {opname}', name)
+  return n, n, viols, [dict(scenario='tags attached by annotation')]
+
+
 def replay(case):
+  if case.get('annotation'):
+    r = annotation_tags_case()
+    m = [v for v in r[2] if v['store'] == case.get('store')]
+    return m[0]['what'] if m else None
   if case.get('tv'):
     r = tagged_value_build()
   elif case.get('tagops'):
@@ -261,6 +305,7 @@ def run(tier='quick', seed=0, nproc=16):
   res += common.pmap(check_survival, names, nproc)
   res += common.pmap(check_tag_ops, [(s.kinds, s.hasdef) for s in gen.all_sigs(2 if tier == 'quick' else 3)], nproc)
   res.append(common.guard(tagged_value_build))
+  res.append(common.guard(annotation_tags_case))
   return common.merge(
       res, 'layerb.prop_C14',
       rule='pool configurations (tags on keyword, positional and **kwargs arguments, tag class '
